@@ -213,11 +213,14 @@ func (u *Universe) AddMethodTypes(meth []*Type, quick bool, seed int64, nSample 
 		case "slice":
 			return comp(t.E)
 		case "map":
-			if t.Key.Meth != "" { // keyed by the unclamped-Compare fixture
+			if t.Key.Meth != "" || (t.Key.K == "struct" && t.Key.Pkg == "ext") { // keyed by the unclamped-Compare fixture / an imported struct
 				return true
 			}
 			return t.Key.K == "basic" && t.Key.B == "int" && comp(t.E)
 		case "struct":
+			if t.Meth == "" && t.Pkg == "ext" && len(t.Fields) >= 2 { // imported struct with several fields of different sizes
+				return true
+			}
 			if t.Meth != "" || t.Pkg != "local" || len(t.Fields) != 1 || !exported(t.Fields[0].Name) {
 				return false
 			}
